@@ -209,7 +209,10 @@ def beam_case(rng, tier):
     sec = dict(A=rng.uniform(2e-3, 5e-2, size=ne), Iy=rng.uniform(1e-5, 5e-4, size=ne), Iz=rng.uniform(1e-5, 5e-4, size=ne),
                J=rng.uniform(2e-5, 1e-3, size=ne))
     loads = rng.normal(size=(ny, 6)) * 1e3
-    loads[np.abs(loads) < 1e-3] = 1.0
+    if rng.uniform() < 0.3:
+        loads[:, 1] *= 500.0                                  # large spanwise loads ...
+        loads[:, [0, 2]] *= 10.0 ** rng.uniform(-5, -3)       # ... next to small transverse ones (still >> 1e-6 N)
+    loads[np.abs(loads) < 1e-4] = 1.0
     return s, nodes, sec, loads
 
 
